@@ -341,6 +341,26 @@ class C18(Check):
                         prob2, msg2 = "session-raises:" + type(e).__name__, repr(e)[:300]
             finally:
                 self.scratch.drop(d)
+            # a second copy of the crash state: the first session after the crash never looks at the history, it only
+            # analyses a module and saves; the history must still be a complete version afterwards
+            prob3 = None
+            if prob is None:
+                d3 = materialise(files)
+                try:
+                    try:
+                        p3 = Project(d3, save_history=True, save_objectdb=True)
+                        pyfiles = p3.get_python_files()
+                        if pyfiles:
+                            p3.pycore.analyze_module(sorted(pyfiles, key=lambda r: r.path)[0])
+                        p3.close()
+                    except Exception as e:
+                        prob3, msg3 = "quiet-session-raises:" + type(e).__name__, repr(e)[:300]
+                    if prob3 is None:
+                        prob3, msg3, hv4, ov4 = self._observe(d3)
+                        if prob3 is None and hv4 not in (hv_old, hv_new, empty_h):
+                            prob3, msg3 = "history-torn", repr(hv4)[:300]
+                finally:
+                    self.scratch.drop(d3)
             feats = ["at:" + where[0], "file:" + where[1]] + (["partial-write"] if where[2] else [])
             detail = {"scenario": case, "crash_after_effect": where[3], "effect": where[0], "file": where[1],
                       "bytes_of_write": where[4], "files": {k: len(v) for k, v in files.items()}}
@@ -348,6 +368,8 @@ class C18(Check):
                 res["fails"].append({"kind": prob, "features": feats, "detail": dict(detail, message=msg), "size": where[3]})
                 res["out"][prob] = res["out"].get(prob, 0) + 1
                 return
+            if prob3:
+                res["fails"].append({"kind": "after-quiet-session:" + prob3, "features": feats, "detail": dict(detail, message=msg3), "size": where[3]})
             if prob2:
                 res["fails"].append({"kind": "after-crash-session:" + prob2, "features": feats, "detail": dict(detail, message=msg2), "size": where[3]})
             hk = "new" if hv == hv_new else "old" if hv == hv_old else "empty" if hv == empty_h else "torn"
